@@ -20,14 +20,16 @@ struct Seq {
     n: u64,
     /// parts[0] travels in the header fragment (id n), parts[i] in fragment id n-i
     parts: Vec<Vec<u8>>,
+    /// atom-cache section carried by the header fragment (part of the reassembled message)
+    cache: Option<Vec<u8>>,
 }
 impl Seq {
-    fn original(&self) -> Vec<u8> { self.parts.concat() }
+    fn original(&self) -> Vec<u8> { let mut v = self.cache.clone().unwrap_or_default(); v.extend(self.parts.concat()); v }
     fn payload_of(&self, frag_id: u64) -> Vec<u8> {
         if frag_id >= 1 && frag_id <= self.n { self.parts[(self.n - frag_id) as usize].clone() } else { vec![0xEE, frag_id as u8] }
     }
     fn ascending_concat(&self) -> Vec<u8> {
-        let mut v = vec![];
+        let mut v = self.cache.clone().unwrap_or_default();
         for id in 1..=self.n { v.extend_from_slice(&self.payload_of(id)); }
         v
     }
@@ -75,7 +77,7 @@ fn run_history(sc: &Scenario, hist: &[Ev]) -> (FragmentAssembler, Vec<Option<Vec
     let mut last_cleanup = 0usize;
     for ev in hist {
         match ev {
-            Ev::Header(s) => { let q = &sc.seqs[*s]; rets.push(a.start_fragment(q.id, q.n, None, q.payload_of(q.n))); }
+            Ev::Header(s) => { let q = &sc.seqs[*s]; rets.push(a.start_fragment(q.id, q.n, q.cache.clone(), q.payload_of(q.n))); }
             Ev::Cont(s, id) => { let q = &sc.seqs[*s]; rets.push(a.add_fragment(q.id, *id, q.payload_of(*id))); }
             Ev::Cleanup => { last_cleanup = a.cleanup_expired(); rets.push(None); }
         }
@@ -202,7 +204,9 @@ fn make_seq(id: u64, msg: &[u8], cut: &[usize]) -> Seq {
     let mut parts = vec![];
     let mut p = 0;
     for &c in cut { parts.push(msg[p..p + c].to_vec()); p += c; }
-    Seq { id, n: cut.len() as u64, parts }
+    // every other sequence id carries an atom-cache section in its header fragment
+    let cache = if id % 2 == 1 { Some(vec![0xCA, 0xFE, (id % 251) as u8]) } else { None };
+    Seq { id, n: cut.len() as u64, parts, cache }
 }
 
 pub fn run(rep: &Report) -> serde_json::Value {
@@ -215,8 +219,8 @@ pub fn run(rep: &Report) -> serde_json::Value {
         let msg: Vec<u8> = (1..=len as u8).collect();
         for n in 1..=max_n.min(len) {
             for cut in compositions(len, n, 1) {
-                for (seq_id, timeout) in [(1u64, Duration::from_secs(3600))] {
-                    scenarios.push((format!("single len={} n={} cut={:?}", len, n, cut), Scenario { seqs: vec![make_seq(seq_id, &msg, &cut)], dup_budget: 1, bad_events: true, cleanup: true, timeout }));
+                for (seq_id, timeout) in [(1u64, Duration::from_secs(3600)), (2u64, Duration::from_secs(3600))] {
+                    scenarios.push((format!("single len={} n={} cut={:?} cache={}", len, n, cut, seq_id % 2 == 1), Scenario { seqs: vec![make_seq(seq_id, &msg, &cut)], dup_budget: 1, bad_events: true, cleanup: true, timeout }));
                 }
             }
         }
@@ -265,6 +269,6 @@ pub fn run(rep: &Report) -> serde_json::Value {
         "max_depth": depth,
         "distinct_outcomes": distinct,
         "exhaustive": true,
-        "rule": "BFS over event histories (header, continuation ids, one duplicate, id 0 and id n+1, cleanup) of protocol-conforming fragmentations: every message length 1..6 x fragment count 1..4(5) x every cut; 2..3(4) interleaved sequences with ids 0,1,2^64-1,2^32; each transition replays the whole history on a fresh real FragmentAssembler; states deduplicated by the reference table (ids received before/after the header per sequence), which determines the assembler's future outputs",
+        "rule": "BFS over event histories (header with and without an atom-cache section, continuation ids, one duplicate, id 0 and id n+1, cleanup) of protocol-conforming fragmentations: every message length 1..6 x fragment count 1..4(5) x every cut; 2..3(4) interleaved sequences with ids 0,1,2^64-1,2^32; each transition replays the whole history on a fresh real FragmentAssembler; states deduplicated by the reference table (ids received before/after the header per sequence), which determines the assembler's future outputs",
     })
 }
